@@ -28,7 +28,7 @@ func runFuzz(p *prop, r run, repo string) (procResult, int) {
 	os.MkdirAll(cache, 0o755)
 	ctx, cancel := context.WithTimeout(context.Background(), d+5*time.Minute)
 	defer cancel()
-	cmd := exec.CommandContext(ctx, "go", "test", "-vet=off", "-run", "^$", "-fuzz", "^"+r.Test+"$", "-fuzztime", ft, "-test.fuzzcachedir", cache, "./"+p.Pkg)
+	cmd := exec.CommandContext(ctx, "go", "test", "-vet=off", "-run", "^$", "-fuzz", "^"+r.Test+"$", "-fuzztime", ft, "./"+p.Pkg, "-test.fuzzcachedir="+cache)
 	cmd.Dir = harnessDir
 	cmd.Env = env(repo)
 	var buf bytes.Buffer
